@@ -1137,6 +1137,14 @@ func retriesReallyRetry(r *Report, p *Program, rule string, floor int) {
 				if !isS {
 					continue
 				}
+				// var x = retry.DefaultBackoff / retry.DefaultRetry: a copy of client-go's own (4 resp. 5 attempts)
+				if st.Addr == ssa.Value(g) {
+					if u, isU := st.Val.(*ssa.UnOp); isU && u.Op == token.MUL {
+						if g2, isG := u.X.(*ssa.Global); isG && g2.Pkg != nil && strings.HasSuffix(g2.Pkg.Pkg.Path(), "client-go/util/retry") {
+							return 4, true
+						}
+					}
+				}
 				fa, isFA := st.Addr.(*ssa.FieldAddr)
 				if !isFA || fa.X != ssa.Value(g) || fieldName(fa) != "Steps" {
 					continue
@@ -1161,6 +1169,24 @@ func retriesReallyRetry(r *Report, p *Program, rule string, floor int) {
 			a := cs.Common().Args[0]
 			ok, why := false, "the backoff is "+E(a)+": not recognisably one that allows a second attempt"
 			if u, isU := a.(*ssa.UnOp); isU && u.Op == token.MUL {
+				if al, isAl := u.X.(*ssa.Alloc); isAl {
+					// a backoff literal built in place
+					if refs := al.Referrers(); refs != nil {
+						for _, rf := range *refs {
+							if fa, isFA := rf.(*ssa.FieldAddr); isFA && fieldName(fa) == "Steps" && fa.Referrers() != nil {
+								for _, rs := range *fa.Referrers() {
+									if st, isS := rs.(*ssa.Store); isS {
+										if c, isC := st.Val.(*ssa.Const); isC && c.Value != nil && c.Value.Kind() == constant.Int {
+											n, _ := constant.Int64Val(c.Value)
+											ok = n >= 2
+											why = sf("the backoff literal has Steps = %d: Steps counts attempts, so a single conflict is final", n)
+										}
+									}
+								}
+							}
+						}
+					}
+				}
 				if g, isG := u.X.(*ssa.Global); isG {
 					if g.Pkg != nil && strings.HasSuffix(g.Pkg.Pkg.Path(), "client-go/util/retry") {
 						ok = true
